@@ -31,6 +31,10 @@ PROPS["C16"] = dict(
         Leg("map_asan", ["models/c16_bankmap.cpp"], "asan", ["--depth", "4"], ["--depth", "5"]),
         # second 6-key universe on the first, the last and a middle bucket of the table (three ids chained in bucket 255, where the iterator's scan runs off the table)
         Leg("map_edge", ["models/c16_bankmap.cpp"], "fast", ["--universe", "edge", "--depth", "5"], ["--universe", "edge", "--depth", "8"], timeout_thorough=14000),
+        # no state matching: every history over a focused 13-operation alphabet (create / createRt / remove on one key per bucket and a second key of bucket 0, one reservation) is its own state,
+        # so map-internal bookkeeping that the state key does not serialise (a cached first bucket, a cursor) cannot be merged with a state reached another way
+        Leg("histories", ["models/c16_bankmap.cpp"], "fast", ["--histories", "1", "--depth", "4"], ["--histories", "1", "--depth", "5"], timeout_thorough=14000),
+        Leg("histories_edge", ["models/c16_bankmap.cpp"], "fast", ["--histories", "1", "--universe", "edge", "--depth", "4"], ["--histories", "1", "--universe", "edge", "--depth", "5"], timeout_thorough=14000),
     ],
     rule="breadth-first exploration of every sequence of bank API calls (getBank plain/Create/CreateRt, removeBank, first/next iteration, "
          "reserveBanks, setInstrument, openBankData) over a 6-key universe colliding in 3 hash buckets (and a second one on the first, last and a middle bucket); a state is distinct when the concrete "
